@@ -24,6 +24,7 @@ type SolverStats struct {
 	MaxNs    int64
 	Restarts int
 	Killed   int
+	Retries  int
 }
 
 type Solver struct {
@@ -35,13 +36,14 @@ type Solver struct {
 	declFuns  map[string]bool
 	Stats     SolverStats
 	TimeoutMs int
+	RetryFactor int // > 1: a query answered unknown is retried once with TimeoutMs*RetryFactor
 	Bin       []string
 	Log       io.Writer // optional transcript
 	dead      bool
 }
 
 func NewSolver(ctx *Ctx, timeoutMs int) *Solver {
-	s := &Solver{ctx: ctx, TimeoutMs: timeoutMs, Bin: []string{"z3", "-in"}}
+	s := &Solver{ctx: ctx, TimeoutMs: timeoutMs, Bin: []string{"z3", "-in"}, RetryFactor: int(envInt("GOSYM_RETRY_FACTOR", 5))}
 	if b := os.Getenv("GOSYM_SOLVER"); b != "" {
 		s.Bin = strings.Fields(b)
 	}
@@ -190,6 +192,28 @@ func (r Result) String() string { return [...]string{"unsat", "sat", "unknown"}[
 // Check decides satisfiability of the conjunction of conds. If sat and wantModel, returns values of all ctx vars
 // that are defined in the solver.
 func (s *Solver) Check(conds []*Term, wantModel bool) (Result, map[string]*big.Int) {
+	res, m := s.checkOnce(conds, wantModel)
+	if res == Unknown && s.TimeoutMs > 0 && s.RetryFactor > 1 {
+		// a wall-clock timeout is not a verdict about the formula (the machine may be loaded): one retry with a
+		// larger budget before the query is reported as unknown
+		old := s.TimeoutMs
+		s.setTimeout(old * s.RetryFactor)
+		s.Stats.Unknown--
+		s.Stats.Retries++
+		res, m = s.checkOnce(conds, wantModel)
+		s.setTimeout(old)
+	}
+	return res, m
+}
+
+func (s *Solver) setTimeout(ms int) {
+	s.TimeoutMs = ms
+	if !s.dead {
+		s.send(fmt.Sprintf("(set-option :timeout %d)", ms))
+	}
+}
+
+func (s *Solver) checkOnce(conds []*Term, wantModel bool) (Result, map[string]*big.Int) {
 	// quick syntactic
 	var live []*Term
 	for _, c := range conds {
